@@ -28,29 +28,26 @@ def End.show : End → String
 the number of frames that lie completely within the first `k` bytes, and whether the
 reader then reports end-of-data or an error.
 
-The tail rule is the one `MessageReader::read_meta_len` implements *as written*:
-fewer than 4 bytes left (including none) is reported as end of data (`read_exact` of the
-first length word fails with `UnexpectedEof` → `Ok(None)`), a cut anywhere later inside a
-frame (second length word, metadata, body) or inside the end-of-stream marker after its
-first word is an error. -/
+The tail rule is the one `MessageReader::read_meta_len` implements: nothing left is end of
+data (`read` returns 0 before any byte of the length word), a cut anywhere inside a frame
+(first or second length word, metadata, body) or inside the end-of-stream marker is an error. -/
 def specDecode : List Nat → Nat → Nat → Nat × End
-  | [], eosLen, k => (0, if k < 4 then .eos else if k < eosLen then .err else .eos)
+  | [], eosLen, k => (0, if k = 0 then .eos else if k < eosLen then .err else .eos)
   | f :: fs, eosLen, k =>
     if f ≤ k then
       let r := specDecode fs eosLen (k - f)
       (r.1 + 1, r.2)
-    else (0, if k < 4 then .eos else .err)
+    else (0, if k = 0 then .eos else .err)
 
 /-- Frame-size level specification of the push decoder (`StreamDecoder::decode` + `finish`),
-which is stricter: only a cut exactly at a frame boundary (or after a complete end-of-stream
-marker) is accepted by `finish`; a frame whose body is empty is only *completed* when at
-least one more byte arrives (the `Body` state is entered but `decode`'s loop stops on an empty
-buffer), so a cut exactly after such a frame leaves the decoder mid-message.
-`frames` are `(frame size, body length)`. -/
+only a cut exactly at a frame boundary (or after a complete end-of-stream marker) is accepted by
+`finish`; a frame is complete as soon as its last byte is there — also a frame with an empty
+body (`has_pending_empty_body`).  `frames` are `(frame size, body length)`; the count and the
+end agree with `specDecode`. -/
 def specDecodePush : List (Nat × Nat) → Nat → Nat → Nat × End
   | [], eosLen, k => (0, if k = 0 then .eos else if k < eosLen then .err else .eos)
-  | (f, body) :: fs, eosLen, k =>
-    if f < k ∨ (f = k ∧ body ≠ 0) then
+  | (f, _body) :: fs, eosLen, k =>
+    if f ≤ k then
       let r := specDecodePush fs eosLen (k - f)
       (r.1 + 1, r.2)
     else (0, if k = 0 then .eos else .err)
